@@ -160,6 +160,30 @@ def runScript (P : Params) : Obj → List Step → List (List UInt8) × Bool
     | .ok (dg, o') => let (ds, ab) := runScript P o' r; (dg :: ds, ab)
     | _ => ([], true)
 
+/-! ### two objects used in turns (round 8): nothing is shared between objects -/
+
+/-- a step on object A (`false`) or object B (`true`) -/
+abbrev Step2 := Bool × Step
+
+/-- run an interleaved script on two objects: digests of A and of B in the order produced, and whether the run aborted -/
+def runTwo (P : Params) : Obj → Obj → List Step2 → List (Bool × List UInt8) × Bool
+  | _, _, [] => ([], false)
+  | a, b, (w, some d) :: r =>
+    match (if w then b else a).update P d with
+    | .ok o' => if w then runTwo P a o' r else runTwo P o' b r
+    | _ => ([], true)
+  | a, b, (w, none) :: r =>
+    match (if w then b else a).finish P with
+    | .ok (dg, o') => let (ds, ab) := (if w then runTwo P a o' r else runTwo P o' b r); ((w, dg) :: ds, ab)
+    | _ => ([], true)
+
+/-- the steps of one of the two objects -/
+def proj (w : Bool) (s : List Step2) : List Step := (s.filter (fun x => x.1 = w)).map (·.2)
+
+/-- the 16 bytes of `state_` as `Encode` would print them (one of the pieces "derived from the cached state" that the generator
+feeds back into the object; it computes them with its own MD5, props/C19/refimpl.py) -/
+def Ctx.stateBytes (c : Ctx) : List UInt8 := unwords c.state
+
 /-- release build (`NDEBUG`: the assertion is compiled out): a second `finish` hashes on from the padded context -/
 def finishTwiceRelease (P : Params) (c : Ctx) : List UInt8 := Md5.finish P (finishCtx P c)
 
